@@ -175,6 +175,21 @@ pub fn stress_inputs(tier: Tier) -> Vec<(String, String)> {
         }
         v.push((format!("payload type nested to depth {depth}"), format!("start S struct S($X) terminal T {{ $X: {ty} }}")));
     }
+    // width instead of depth: lists that a recursive conversion would walk one frame per element
+    let segs: Vec<String> = (0..5000).map(|i| format!("m{i}")).collect();
+    v.push(("payload type path with 5000 segments".into(), format!("start S struct S($X) terminal T {{ $X: {}::Q }}", segs.join("::"))));
+    let args: Vec<String> = (0..5000).map(|i| format!("A{i}")).collect();
+    v.push(("generic payload type with 5000 arguments".into(), format!("start S struct S($X) terminal T {{ $X: G<{}> }}", args.join(", "))));
+    let mut s = String::from("start S struct S($X0) ");
+    for i in 0..2000 {
+        s.push_str(&format!("#[t{i}] "));
+    }
+    s.push_str("terminal T { ");
+    for i in 0..2000 {
+        s.push_str(&format!("$X{i}: () "));
+    }
+    s.push('}');
+    v.push(("2000 attributes on a terminal declaration with 2000 unused terminals".into(), s));
     let mut s = String::new();
     for i in 0..2000 {
         s.push_str(&format!("#[a{i}({{[x]}})] "));
